@@ -68,6 +68,9 @@ theorem num_ofSci (m : Nat) (s : Bool) (e : Nat) :
 @[simp] theorem num_half : (Num.half : ℝ) = 1/2 := by
   simp only [Num.half, num_ofSci]; norm_num
 theorem num_sq (x : ℝ) : Num.sq x = x * x := rfl
+/-- over ℝ `torch.where` is the conditional -/
+theorem num_select (p : Prop) [Decidable p] (a b : ℝ) : Num.select (decide p) a b = if p then a else b := by
+  by_cases h : p <;> simp [Num.select, h]
 theorem num_radians (d : ℝ) : Num.radians d = d * Real.pi / 180 := by
   simp [Num.radians]
 
